@@ -1,5 +1,6 @@
-use vkit::Check;
+mod c29;
+use vkit::{Check, Level};
 fn main() {
-    let checks: &[Check] = &[];
+    let checks: &[Check] = &[Check { id: "C29", level: Level::Exploration, run: c29::run }];
     vkit::main(checks);
 }
